@@ -1,10 +1,13 @@
 (* C01 - CSV write-then-read preserves every well-formed table bundle.
    Only statements here; every proof is one [exact] of a lemma from Proofs/.
-   This file holds the text-layer half (lines and cells recovered exactly) and the per-table layout
-   round trip (Proofs/RoundTrip.v); the model-level composition read_csv (write_csv ts) is, in
+   The text layer (lines and cells recovered exactly), one cell, one table, and the whole bundle
+   read (write_csv ts) in the reader model; tables with at least one row (zero-row tables are covered
+   by the correspondence check and the oracle only - see DESIGN.md).  The same composition is, in
    addition, evaluated on every generated bundle by the correspondence check (Corr/C01.v). *)
-From PdV Require Import Text TextProofs WriteProofs.
-From PdV.Model Require Import WriteCsv.
+From Coq Require Import List Arith.
+From PdV Require Import Text TextProofs WriteProofs ParseTable RoundTrip.
+From PdV.Model Require Import WriteCsv Segment Reader.
+Import ListNotations.
 
 (* splitting a written line on the separator gives back exactly the cells that were joined, for
    every separator that occurs in none of them *)
@@ -22,6 +25,41 @@ Theorem C01_lines_recovered :
     lines (write_csv sep ts) = flat_map (fun t => table_lines sep t ++ [[]]) ts.
 Proof. exact lines_of_bundle. Qed.
 Print Assumptions C01_lines_recovered.
+
+(* One written cell read back under its column's unit is the value that was written: text verbatim
+   (an empty string in the first column excepted: it is written as '-'), onoff as 0/1, numbers and
+   timestamps through float() / to_datetime (the hypotheses num_ok / dt_ok inside wf_val:
+   H_float_roundtrip, H_dt_roundtrip), and a missing number or timestamp stays missing. *)
+Theorem C01_cell_roundtrip :
+  forall (parse_float : str -> option ftok) (parse_dt : str -> dres) u first v,
+    wf_val parse_float parse_dt u first v ->
+    cell_parser parse_float parse_dt u (CStr (render u first v)) = CVal (value_of u v).
+Proof. exact cell_roundtrip. Qed.
+Print Assumptions C01_cell_roundtrip.
+
+(* One well-formed table with at least one row, either orientation, any admissible separator: the
+   table parser applied to the cells of the written lines returns name, destinations cell, flag,
+   column names, units and every value as written, and the fixer is not touched. *)
+Theorem C01_table_roundtrip :
+  forall (parse_float : str -> option ftok) (parse_dt : str -> dres) (cfg : fixer_cfg) (sep : N) (t : wtable),
+    wf_table parse_float parse_dt sep t ->
+    parse_table parse_float parse_dt cfg (cells_of_lines sep (table_lines sep t)) fx_init
+    = Ok (table_read_back t).
+Proof. exact table_roundtrip. Qed.
+Print Assumptions C01_table_roundtrip.
+
+(* The whole statement in the model: for every sequence of such tables (any mix of orientations),
+   reading the written text yields exactly one TABLE block per written table, in order, each equal
+   to the written table, with origin rows at the tables' first lines, and nothing else. *)
+Theorem C01_bundle_roundtrip :
+  forall (parse_float : str -> option ftok) (parse_dt : str -> dres) (cfg : fixer_cfg) (raising : bool)
+         (sep : N) (ts : list wtable),
+    Forall (wf_table parse_float parse_dt sep) ts -> Forall (plain_lines sep) ts ->
+    forallb (fun t => forallb no_lf (table_lines sep t)) ts = true ->
+    read parse_float parse_dt cfg FPd None raising (cells_of_lines sep (lines (write_csv sep ts)))
+    = (events_from sep 0 ts, FDone).
+Proof. exact bundle_roundtrip. Qed.
+Print Assumptions C01_bundle_roundtrip.
 
 (* non-vacuity: a transposed table with an empty string in a non-first text column keeps it *)
 Example C01_example :
